@@ -11,9 +11,9 @@ UNIT = dict(
     extra_params=["clk", "tr", "gh"],
     fns={
         "FixedWindowState::new": dict(),
-        "FixedWindowState::refresh": dict(),
+        "FixedWindowState::refresh": dict(optional=True),
         "FixedWindowState::try_acquire": dict(rules=[
-            ("inject", r"self\.available_permits -= 1;", "after", ADMIT),
+            ("inject", r"self\.available_permits (?:-= 1|= self\.available_permits - 1);", "after", ADMIT),
         ]),
         "SlidingLogState::new": dict(),
         "SlidingCounterState::new": dict(),
